@@ -13,7 +13,7 @@ from commonroad.common.util import FileFormat
 from commonroad.common.writer.file_writer_interface import OverwriteExistingFile
 from commonroad.planning.planning_problem import PlanningProblemSet
 from contracts.c01 import CONTENTS, RoundTrip, mk_planning_problems, mk_scenario
-from pyvc.contract import B, Contract, R, T, conj, register
+from pyvc.contract import B, Contract, R, T, conj, register, scratch_dir
 
 XSD = "/repo/commonroad/scenario_definition/xml_definition_files/XML_commonRoad_XSD.xsd"
 
@@ -51,7 +51,7 @@ for _cname in CONTENTS:
             if F.native:
                 import tempfile
 
-                path = os.path.join(tempfile.mkdtemp(prefix="verif_c03_"), "out.xml")
+                path = os.path.join(scratch_dir("c03_"), "out.xml")
             else:
                 path = "/nonexistent-dir/c03.xml"
             w = F.new(CommonRoadFileWriter, inp["sc"], inp["pps"], decimal_precision=4, file_format=FileFormat.XML)
